@@ -342,8 +342,13 @@ def run(ctx):
         ctx.add('A2.follow-up-controls', which, loc(s[3]), okv, 'the follow-up controls are not the saved ones plus PagedResults{size: self.page_size, cookie: <cookie just returned>}: %s' % absx.fmt(c2)[:140])
         if sok is True:
             news = ('variant', sterm, 'Ok', 0)
-            oksp = h.get(('field', STREAM, 'ldap')) == ('field', news, 'ldap') and h.get(('field', STREAM, 'rx')) == ('field', news, 'rx') and not removes and o.kind in ('loop', 'cont')
-            ctx.add('A2.splices-new-stream', which, loc(N.root), oksp, 'after a successful follow-up the stream must continue on the new search\'s handle and receiver')
+            # ... and with whatever the stream keeps as its record of the Search it is fed by (streamid: the ID its expiry / early finish
+            # scrubs): after the splice that must name the new Search
+            import streamid
+            SID = streamid.StreamSearchId(f)
+            rec_ok = all(h.get(('field', STREAM, F)) == ('field', news, F) for F in SID.record_fields)
+            oksp = h.get(('field', STREAM, 'ldap')) == ('field', news, 'ldap') and h.get(('field', STREAM, 'rx')) == ('field', news, 'rx') and rec_ok and not removes and o.kind in ('loop', 'cont')
+            ctx.add('A2.splices-new-stream', which, loc(N.root), oksp, 'after a successful follow-up the stream must continue on the new search\'s handle and receiver' + ('' if rec_ok else ' and take over its record of the Search\'s message ID (%s): a later expiry or early finish would scrub the previous page\'s ID' % ', '.join(SID.record_fields)))
         else:
             ctx.add('A2.follow-up-error-returned', which, loc(N.root), o.kind == 'ret' and sem.is_err_result(o.val) and sem.has(o.val, lambda x: x == sterm) and not removes, 'a failed follow-up search must be returned as the error')
     for o, which in judged:
